@@ -66,7 +66,7 @@ class World:
                 else:
                     ops.append(['writeline'] if kind == 'string' else ['comm'])
             callers.append(ops)
-        fault = rng.choice(['none', 'none', 'late-reply', 'garbage', 'silence', 'disconnect', 'disconnect-refuse', 'trailing-extra', 'disconnect-idle', 'noise'])
+        fault = rng.choice(['none', 'none', 'late-reply', 'garbage', 'silence', 'disconnect', 'disconnect-refuse', 'trailing-extra', 'disconnect-idle', 'noise', 'dribble'])
         if fault == 'noise' and kind != 'string':
             fault = 'none'
         scen = {'kind': kind, 'callers': callers, 'delay': rng.choice([0.0, 0.01, 0.3]), 'chunk': rng.choice([None, None, 1, 3]), 'fault': fault,
@@ -146,6 +146,17 @@ class World:
                     if cmd.startswith(b'W'):
                         continue          # writeline: no reply expected
                     reply = (b'R:' + cmd + eolb) if scen['kind'] == 'string' else (b'R' + cmd[1:])
+                    if fault == 'dribble' and n == scen['fault_at'] + 1:
+                        # a babbling device: the beginning of a reply, byte by byte with pauses shorter than the time-out, never
+                        # the rest - the call ends at ITS time-out all the same (and frees the communicator for the others)
+                        part = reply[:-len(eolb) - 1] if scen['kind'] == 'string' else reply[:5]
+                        for b_ in part[:5]:
+                            D.vsleep(TIMEOUT * 0.6)
+                            if sock.closed or not sock.peer_send(bytes([b_])):
+                                break
+                            dev['stale'].append((s.now, bytes([b_])))
+                        dev['dribbled'] = dev.get('dribbled', 0) + 1
+                        continue
                     if fault == 'noise' and n == scen['fault_at'] + 1:
                         # line noise: a complete, terminated line with bytes that can not be decoded in the configured encoding
                         reply = b'R:\xff\xfe' + cmd + b'\x80' + eolb
@@ -378,7 +389,7 @@ class World:
                     if sent is not None and ts < sent - 1e-9:
                         return 'C16/stale-data-returned-as-reply'
                     return None
-            if scen['fault'] == 'late-reply' or (scen['fault'] == 'trailing-extra' and scen['chunk']) or \
+            if scen['fault'] in ('late-reply', 'dribble') or (scen['fault'] == 'trailing-extra' and scen['chunk']) or \
                     (scen['fault'] == 'delayed-extra' and scen.get('wait_before', 0) < 0.2):
                 return None       # knock-on effect of data arriving after a command was written (later replies are shifted by one)
             return 'C16/reply-of-another-command'
@@ -425,7 +436,9 @@ class World:
         if s.escaped:
             r.violation('C16/exception-escapes-thread', f'{s.escaped[0][:2]}', dict(case, traceback=s.escaped[0][2]))
             return
-        faulty = scen['fault'] in ('silence', 'disconnect', 'disconnect-refuse', 'late-reply', 'disconnect-idle', 'noise')
+        faulty = scen['fault'] in ('silence', 'disconnect', 'disconnect-refuse', 'late-reply', 'disconnect-idle', 'noise', 'dribble')
+        if dev.get('dribbled'):
+            r.count('incomplete_replies_arriving_byte_by_byte', dev['dribbled'])
         if dev.get('noisy'):
             r.count('replies_with_undecodable_bytes', dev['noisy'])
         cmdtime = cmdtime_final(dev, scen)
@@ -487,6 +500,8 @@ class World:
                 if sent:
                     waited = rec_['t_ret'] - max(sent)
                     bound = max(TIMEOUT, 1.0) + 0.5 + (rec_.get('delay') or 0)
+                    if scen['fault'] == 'dribble':
+                        bound += 1.0      # the deadline is looked at when a receive attempt (1 s) ends empty: the last byte may arrive just before it
                     if waited > bound:
                         r.violation('C16/call-exceeds-timeout', f'{key}: returned {waited:.2f} s after its command reached the device (bound {bound:.2f})', case)
                         return
